@@ -10,6 +10,13 @@ never through rich.color).
          the ==/hash contract between the operands themselves.
 (assoc)  B^3 for a basis B containing every kind of field + per attribute all 27 state
          triples: (a+b)+c == a+(b+c) == chain(a,b,c) == reference.
+(derived) every route-built style is also used as an OPERAND: d+x and x+d for 6 keyword-built
+         partners x (null, attributes, colours, link, mixed, single attribute) against the Ref sum
+         and against the same sum with the equal keyword-built style (==, hash), and bool(d) must
+         not be False when d specifies something (equal styles are interchangeable in +); all
+         triples over 25 derived operands (without_color, update_link incl. None, from_color, copy,
+         parse, + and chain results, background_style) and 6 keyword-built partners, derived
+         operand in every position.
 (routes) for every s in U every construction route (keywords twice, Color objects, parse of
          independent spellings, a+b for every split of the fields with and without overridden
          left values, chain/combine, copy, update_link, without_color, from_color,
@@ -23,9 +30,9 @@ never through rich.color).
          all n, #hex / rgb() on a per-channel grid (quick 25, thorough 70 values + each
          channel over all 256), default, on, link.
 
-Measured: quick 4.0 M evaluations, ~360 distinct outcome signatures, ~85 CPU-s (21 s wall with
-6 workers on a quiet machine); thorough 23.7 M evaluations, ~370 signatures, ~16 CPU-min
-(9.5 min wall with 6 workers on a machine at load 90).
+Measured: quick 5.0 M evaluations, 353 distinct outcome signatures, ~105 CPU-s (48 s wall with
+6 workers on a machine at load 60); thorough 25.8 M evaluations, 365 signatures, ~14 CPU-min
+(6.7 min wall with 6 workers on the same loaded machine).
 """
 import itertools
 import os
@@ -286,6 +293,12 @@ def basis(tier):
     return b
 
 
+# keyword-built partners for the derived operands (assoc part) / operands every route-built style is combined with (routes part)
+DERIVED_PARTNERS = [D(), D([("bold", True), ("italic", False)]), D(color="green", bgcolor="color(2)"), D(link="other://X"),
+                    D([("bold", False), ("underline", True)], "blue", "default", "mix://L"), D([("overline", True)])]
+JUDGE_TRUTHY_EMPTY = False   # bool() of a derived style that specifies nothing: counted, not judged (statement is silent)
+
+
 def attr_triples():
     """per attribute all 27 state triples"""
     for a in ATTRS:
@@ -454,11 +467,61 @@ def _part_pairs(sh, tier, res):
 
 
 # ------------------------------------------------------------------ (assoc)
+def derived_basis():
+    """(name, expected description, factory): operands that are NOT keyword-built -- one or more per
+    derivation route and per kind of remaining field (the flags a route sets by hand, e.g. `_null`,
+    only show when its result is used as an operand)."""
+    from rich.style import Style
+    from rich.color import Color
+    red, blue = Color.parse("red"), Color.parse("blue")
+    return [
+        ("without_color:link-only", D(link=U1), lambda: Style(color="red", bgcolor="blue", link=U1).without_color),
+        ("without_color:attr-only", D([("bold", True)]), lambda: Style(bold=True, color="red").without_color),
+        ("without_color:attr+link", D([("italic", False)], link=U2), lambda: Style(italic=False, bgcolor="blue", link=U2).without_color),
+        ("without_color:empty", NULLD, lambda: Style(color="red").without_color),
+        ("without_color:of-sum", D(link=U2), lambda: (Style(color="red") + Style(link=U2)).without_color),
+        ("update_link:set", D(link=U2), lambda: Style().update_link(U2)),
+        ("update_link:replace", D([("italic", False)], "red", None, U1), lambda: Style(italic=False, color="red", link="x://y").update_link(U1)),
+        ("update_link:clear", D([("bold", True)]), lambda: Style(bold=True, link=U1).update_link(None)),
+        ("update_link:clear-color", D(bgcolor="blue"), lambda: Style(bgcolor="blue", link=U1).update_link()),
+        ("update_link:empty", NULLD, lambda: Style(link=U1).update_link()),
+        ("from_color:fg", D(color="red"), lambda: Style.from_color(red)),
+        ("from_color:bg", D(bgcolor="blue"), lambda: Style.from_color(None, blue)),
+        ("from_color:both", D(color="default", bgcolor="default"), lambda: Style.from_color(Color.default(), Color.default())),
+        ("from_color:empty", NULLD, lambda: Style.from_color()),
+        ("copy:full", D([("bold", True)], "red", "blue", U1), lambda: Style(bold=True, color="red", bgcolor="blue", link=U1).copy()),
+        ("copy:link-only", D(link=U2), lambda: Style(link=U2).copy()),
+        ("copy:of-derived", D(link=U1), lambda: Style(color="red", link=U1).without_color.copy()),
+        ("parse:attrs-bg", D([("bold", False)], None, "blue"), lambda: Style.parse("not bold on blue")),
+        ("parse:link", D(link=U1), lambda: Style.parse("link " + U1)),
+        ("parse:none", NULLD, lambda: Style.parse("none")),
+        ("add:attr+link", D([("bold", True)], link=U1), lambda: Style(bold=True) + Style(link=U1)),
+        ("add:colors", D(color="red", bgcolor="blue"), lambda: Style(color="red") + Style(bgcolor="blue")),
+        ("add:derived+kw", D([("dim", True)], link=U2), lambda: Style(color="red", link=U2).without_color + Style(dim=True)),
+        ("chain:three", D([("strike", True)], "red", None, U2), lambda: Style.chain(Style(strike=True), Style(color="red"), Style(link=U2))),
+        ("background_style", D(bgcolor="blue"), lambda: Style(bold=True, color="red", bgcolor="blue", link=U1).background_style),
+    ]
+
+
+def _operand(spec):
+    """spec: a description, or "@name" of a derived_basis entry -> (fresh object, description)"""
+    if isinstance(spec, str):
+        for name, d, make in derived_basis():
+            if "@" + name == spec:
+                return make(), d
+        raise KeyError(spec)
+    return build(spec), spec
+
+
 def check_triple(da, db, dc, res, objs=None, refs=None):
     from rich.style import Style
     case = {"part": "triple", "a": da, "b": db, "c": dc}
+    nder = sum(1 for v in (da, db, dc) if isinstance(v, str))
     try:
-        a, b, c = objs or (build(da), build(db), build(dc))
+        if objs is None:
+            (a, da), (b, db), (c, dc) = _operand(da), _operand(db), _operand(dc)
+        else:
+            a, b, c = objs
         ra, rb, rc = refs or (ref(da), ref(db), ref(dc))
         x = (a + b) + c
         y = a + (b + c)
@@ -485,7 +548,7 @@ def check_triple(da, db, dc, res, objs=None, refs=None):
         return
     n = sum(1 for d in (da, db, dc) if d != NULLD)
     over = len(fields(da)) + len(fields(db)) + len(fields(dc)) - len(fields(merge(merge(da, db), dc)))
-    res.sig(("triple", n, min(over, 4)), nontrivial=n == 3)
+    res.sig(("triple", n, min(over, 4), min(nder, 2)), nontrivial=n == 3)
 
 
 def _part_assoc(sh, tier, res):
@@ -501,6 +564,14 @@ def _part_assoc(sh, tier, res):
                 if objs[i] is None or objs[j] is None or objs[k] is None:
                     continue
                 check_triple(B[i], B[j], B[k], res, (objs[i], objs[j], objs[k]), (refs[i], refs[j], refs[k]))
+    # triples over derived (not keyword-built) operands mixed with keyword-built ones: every position
+    specs = ["@" + name for name, _, _ in derived_basis()] + DERIVED_PARTNERS
+    for i in range(sh["i"], len(specs), sh["n"]):
+        for sj in specs:
+            for sk in specs:
+                if isinstance(specs[i], str) or isinstance(sj, str) or isinstance(sk, str):
+                    check_triple(specs[i], sj, sk, res)
+                    res.count("derived_triples")
     if sh["i"] == 0:
         for t in attr_triples():
             check_triple(t[0], t[1], t[2], res)
@@ -557,6 +628,46 @@ def check_routes(d, res, only=None, special=None):
                 base_rt.append(("str", "", ""))
         return base_rt[0] is not None and base_rt[0][0] == form
 
+    opsums = {}
+
+    def sums_for(dd, kk):
+        """keyword-built kk combined with every partner, both sides; kept only where the Ref sum confirms it"""
+        if dd not in opsums:
+            lst = []
+            for od in DERIVED_PARTNERS:
+                try:
+                    o, ro, rd = build(od), ref(od), ref(dd)
+                    kl, kr = kk + o, o + kk
+                    if RefStyle.from_rich(kl) == rd + ro and RefStyle.from_rich(kr) == ro + rd:
+                        lst.append((od, o, kl, kr, rd + ro, ro + rd))
+                except Exception:
+                    pass        # reported by the pairs part
+            opsums[dd] = lst
+        return opsums[dd]
+
+    def as_operand(x, kk, dd, tag, hkey, case):
+        """x equals the keyword-built kk, so it must be interchangeable with it as an operand of +
+        (left and right) and in a boolean context."""
+        if not x and dd != NULLD:
+            res.violate("bool/" + tag, case, "bool() is False for a style that specifies %r" % (kwargs(dd),))
+        elif x and dd == NULLD:
+            res.count("bool_truthy_but_specifies_nothing")
+            if JUDGE_TRUTHY_EMPTY:
+                res.violate("bool-empty/" + tag, case, "bool() is True for a style equal to Style()")
+        for od, o, kl, kr, wl, wr in sums_for(dd, kk):
+            for side, y, ksum, want in (("left", x + o, kl, wl), ("right", o + x, kr, wr)):
+                res.evaluations += 1
+                c2 = dict(case, partner=od, side=side)
+                got = RefStyle.from_rich(y)
+                if got != want:
+                    what = "identity" if od == NULLD or dd == NULLD else _diff_field(got, want)
+                    res.violate("add-derived/%s/%s" % (what, tag), c2,
+                                "route-built style as %s operand: got %r, reference %r" % (side, got, want))
+                elif not _eq(y, ksum):
+                    res.violate("add-derived/eq/" + tag, c2, "sum with the route-built operand is not == to the sum with the equal keyword-built one")
+                elif not _hash_ok(y, ksum):
+                    res.violate("hash/" + (hkey or "add"), c2, "sum with the route-built operand hashes differently from the sum with the equal keyword-built one")
+
     def judge(route, make, hkey=None, expect=None, expect_d=None):
         """make() builds the style through `route`; it must equal the keyword-built k."""
         if only and route != only:
@@ -578,6 +689,7 @@ def check_routes(d, res, only=None, special=None):
             if not _hash_ok(x, kk):
                 res.violate("hash/" + (hkey or tag), case, "route %s == Style(**%r) but hash %d != %d (or dict/set lookup fails)" % (
                     route, kwargs(dd), hash(x), hash(kk)))
+            as_operand(x, kk, dd, tag, hkey, case)
             rt = _roundtrip(x, res)
             if rt:
                 form, kind, detail = rt
@@ -960,7 +1072,9 @@ def describe(tier, seed, res):
                 "spellings (named, bright, 256-name, color(n) n in {0,7,8,15,16,255}, #hex, rgb(), default) for fg, bg and "
                 "fg x bg, 2 links, single attribute x colour / link, a 6x8x3 mixed block%s: %d styles. (pairs) all %d^2 ordered "
                 "pairs; (assoc) all triples of a %d-style basis + 13x27 per-attribute state triples; (routes) every s in U "
-                "through every construction route, all 2^fields splits for +; (vec) %s attribute vectors; (docs) all "
+                "through every construction route, all 2^fields splits for +, every route-built style again as left and "
+                "right operand of + with 6 keyword-built partners, all triples over 25 route-built + 6 keyword-built operands; "
+                "(vec) %s attribute vectors; (docs) all "
                 "documented attribute spellings, %d colour names, color(0..255), #hex and rgb() on a %d^3 grid plus each "
                 "channel over 0..255. A case is non-trivial when both/all operands specify something (pairs, triples), "
                 "when an attribute is specified (vec) or when the definition parsed (docs); distinct = distinct outcome signatures."
@@ -972,6 +1086,8 @@ def describe(tier, seed, res):
             "where two spellings name the same colour only the canonical meaning (RefStyle) is compared",
             "links are URLs without whitespace; Style(link='') is outside the statement",
             "colour name -> number/rgb oracle is the table in docs/source/appendix/colors.rst",
+            "bool() of a route-built style that specifies nothing (e.g. Style(color='red').without_color is truthy) is counted "
+            "(bool_truthy_but_specifies_nothing), not judged: the statement is silent and + treats it correctly",
             "abbreviations 'd' and 'c' exist in the parser but are not documented in style.rst and are not judged",
         ],
         "coverage": {"universe": nu, "basis": nb},
@@ -984,7 +1100,7 @@ def replay(case):
     if p == "pair":
         check_pair(dj(case["a"]), dj(case["b"]), res)
     elif p == "triple":
-        check_triple(dj(case["a"]), dj(case["b"]), dj(case["c"]), res)
+        check_triple(*[v if isinstance(v, str) else dj(v) for v in (case["a"], case["b"], case["c"])], res=res)
     elif p == "routes":
         check_routes(dj(case["d"]), res, only=case.get("route"), special=case.get("special"))
     elif p == "vec":
